@@ -253,21 +253,26 @@ _log_missing = []
 
 
 def _apply_loop_contracts(src, ed, loops, blk, canary):
+    # the loop contracts are keyed by loop ordinal: if the loop structure of the lifted code no longer matches (fewer loops,
+    # a `for` where the contract has a `while`), none of them is applied and the run counts as weakened (driver: degraded)
+    mismatch = None
     for k, spec in blk.loops.items():
         if k >= len(loops):
-            # the code no longer has this loop: its invariants have nothing to attach to; the function is then judged on its
-            # pre/postconditions alone (a failure there is a verdict about the new body, not about the missing loop)
-            _log_missing.append(f'loop contract {k} not applied: the lifted code has {len(loops)} loop(s)')
-            continue
+            mismatch = f'loop contract {k} has no loop (the lifted code has {len(loops)})'
+        elif (spec.get('binder') or spec.get('iter_wrap')) and loops[k].kind != 'for':
+            mismatch = f"loop {k} is `{loops[k].kind}`, its contract expects `for`"
+        elif not spec.get('binder') and spec.get('decreases') and loops[k].kind == 'for':
+            mismatch = f'loop {k} is `for`, its contract expects `while`/`loop`'
+    if mismatch:
+        _log_missing.append('STRUCTURE-CHANGED ' + mismatch + ': loop contracts and loop-positioned hints of this function not applied')
+        blk.loops = {}
+        blk.proofs = [(m, t) for m, t in blk.proofs if 'loop' not in m]
+    for k, spec in blk.loops.items():
         l = loops[k]
         sig = src.sig
         if spec.get('binder'):
-            if l.kind != 'for':
-                raise LiftError(f'{src.rel}: loop {k} is `{l.kind}`, contract expects `for`')
             ed.insert(sig[l.in_idx].end, f" {spec['binder']}:", 'R0-binder')
         if spec.get('iter_wrap'):
-            if l.kind != 'for':
-                raise LiftError(f'{src.rel}: loop {k}: iter_wrap needs a `for` loop')
             ed.insert(sig[l.in_idx].end, f" {spec['iter_wrap']}(", 'R13')
             ed.insert(sig[l.open_idx].start, ') ', 'R13')
             _log_missing.append(f"R13 {src.rel}:{src.line_of(sig[l.kw_idx].start)} iterable of `for` loop {k} routed through {spec['iter_wrap']}")
@@ -301,18 +306,7 @@ def _apply_loop_contracts(src, ed, loops, blk, canary):
             pass  # handled by the caller (needs the body-open position)
 
 
-def _body_rewrites(src, ed, lo, hi, loops, blk, log):
-    rewrite_tail_continue(src, ed, loops, lo, hi, log)
-    rewrite_string_add(src, ed, lo, hi, log)
-    rewrite_ctor_fn_value(src, ed, lo, hi, log)
-    if blk.shim_methods:
-        rewrite_method_shims(src, ed, lo, hi, blk.shim_methods, log)
-    if blk.closures:
-        annotate_closures(src, ed, lo, hi, blk.closures, log)
-    if blk.args.get('format') == 'fmt1':
-        rewrite_format(src, ed, lo, hi, log)
-    if blk.args.get('desugar_try'):
-        rewrite_try(src, ed, lo, hi, log)
+def _apply_substs(src, ed, blk, log):
     text = src.text
     from .rustlex import lex as _lex
     for frm, to in blk.substs:
@@ -339,6 +333,21 @@ def _body_rewrites(src, ed, lo, hi, loops, blk, log):
                 k += 1
         if not hits:
             log.append(f'R-subst (not applied, text absent) `{frm}`')
+
+
+def _body_rewrites(src, ed, lo, hi, loops, blk, log):
+    rewrite_tail_continue(src, ed, loops, lo, hi, log)
+    rewrite_string_add(src, ed, lo, hi, log)
+    rewrite_ctor_fn_value(src, ed, lo, hi, log)
+    if blk.shim_methods:
+        rewrite_method_shims(src, ed, lo, hi, blk.shim_methods, log)
+    if blk.closures:
+        annotate_closures(src, ed, lo, hi, blk.closures, log)
+    if blk.args.get('format') == 'fmt1':
+        rewrite_format(src, ed, lo, hi, log)
+    if blk.args.get('desugar_try'):
+        rewrite_try(src, ed, lo, hi, log)
+    _apply_substs(src, ed, blk, log)
     sig = src.sig
     for pname in blk.args.get('drop_let', '').split(',') if blk.args.get('drop_let') else []:
         done = False
@@ -492,8 +501,7 @@ def lift_block(blk, log, meta, canary=False):
         _sig_rewrite(src, fi, ed, a.get('ret', 'r'), a.get('as'), log)
         if blk.add_generics or blk.add_params:
             raise LiftError('template: stub lifts take no add_generics/add_param')
-        for frm, to in blk.substs:
-            pass
+        _apply_substs(src, ed, blk, log)
         contract = _clauses('requires', blk.requires) + _clauses('ensures', blk.ensures)
         segs.append(Seg('#[verifier::external_body]\n', tag='stub'))
         segs.extend(ed.render())
@@ -567,9 +575,9 @@ def lift_block(blk, log, meta, canary=False):
     elif kind in ('tail', 'loop'):
         if kind == 'tail':
             # statement `let [mut] V ... ;` at depth 1 of the body
-            start = None
+            start = fi.open_idx + 1 if a.get('from_start') else None
             i = fi.open_idx + 1
-            while i < fi.close_idx:
+            while i < fi.close_idx and start is None:
                 t = sig[i]
                 if t.kind == 'p' and t.text in '([{':
                     i = t.mate + 1
@@ -664,7 +672,11 @@ def lift_block(blk, log, meta, canary=False):
         for m_, txt in blk.proofs:
             if m_.get('at') == 'fn_start':
                 segs.append(Seg((txt + '\n') if m_.get('_raw') else ('proof {\n' + txt + '\n}\n'), tag='proof'))
+        if a.get('wrap_ok'):
+            segs.append(Seg('Ok(\n', tag='R5'))
         segs.extend(ed.render())
+        if a.get('wrap_ok'):
+            segs.append(Seg('\n)', tag='R5'))
         if a.get('tail_expr'):
             segs.append(Seg('\n' + a['tail_expr'] + '\n', tag='R5'))
         segs.append(Seg('\n}\n', tag='R5'))
@@ -714,12 +726,22 @@ def assemble(template_path, canary=False, extra_shims=None, havoc_decls=None, de
             if extra_shims and val.kind in ('item', 'tail', 'loop', 'let'):
                 for k, v in extra_shims.items():
                     val.shim_methods.setdefault(k, v)
-            if canary and val.kind in ('item', 'tail', 'loop', 'let') and val.args.get('canary', '1') != '0':
-                segs.extend(lift_block(val, log, meta, canary=False))
-                dummy = {'functions': [], 'includes': []}
-                segs.extend(lift_block(val, [], dummy, canary=True))
-            else:
-                segs.extend(lift_block(val, log, meta))
+            try:
+                if canary and val.kind in ('item', 'tail', 'loop', 'let') and val.args.get('canary', '1') != '0':
+                    s1 = lift_block(val, log, meta, canary=False)
+                    dummy = {'functions': [], 'includes': []}
+                    s2 = lift_block(val, [], dummy, canary=True)
+                    segs.extend(s1)
+                    segs.extend(s2)
+                else:
+                    segs.extend(lift_block(val, log, meta))
+            except LiftError as e:
+                if val.kind in ('let', 'tail', 'loop') and val.args.get('optional', '1') != '0':
+                    # the anchor of one block lift is gone: the other functions of the unit are still judged; this block is undecided
+                    names = [n for n, _ in val.requires + val.ensures if n]
+                    meta.setdefault('lost_anchors', []).append({'msg': str(e), 'clauses': names})
+                else:
+                    raise
     if havoc_decls:
         # std functions the lifted text calls but the contract library does not know: unconstrained specifications pasted
         # from the verifier's own suggestion (driver/core.py: failures in such a run need a replayed counterexample)
@@ -751,5 +773,6 @@ def assemble(template_path, canary=False, extra_shims=None, havoc_decls=None, de
                 out.append(part + ('' if last else '\n'))
                 table.append(entry)
     meta['lift_rewrites'] = log + ['R0 ' + x for x in _log_missing]
+    meta['structure_changed'] = any('STRUCTURE-CHANGED' in x for x in _log_missing)
     del _log_missing[:]
     return ''.join(out), table, meta
